@@ -19,7 +19,7 @@ META = dict(
     level_note="Trusted: Coq kernel; harness mirrors. The interleaving of the decider's callers is serialised by the "
                "decider lock: every interleaving is a sequence of atomic local/remote operations, which is what the "
                "theorem quantifies over.",
-    rule="singleton patterns (all legal shapes <=3 blocks + random up to 5 blocks), interleavings of local events and "
+    rule="(messages may carry several updated records for one singleton pattern with different ids, as a backlog merge produces) singleton patterns (all legal shapes <=3 blocks + random up to 5 blocks), interleavings of local events and "
          "remote completed/halted/updated records with same or different run ids, duplicates; non-trivial = a remote "
          "record hit a pattern with an active run, or a run was refused by the gate",
     trusted_base=["harness/predlang.py, sim_decider.py encoders"],
@@ -34,14 +34,14 @@ def gen_cases(ctx):
             cfg = dict(phen=[(1, [G.pattern(1, G.assign(shape, scheme, "distinct"), (), (), True)])],
                        maxcache=rng.choice([0, 10]), idbase=1000)
             for _ in range(8 if ctx.quick else 60):
-                cases.append((cfg, G.rand_ops(rng, cfg, rng.randint(2, 7), premote=0.4)))
+                cases.append((cfg, G.rand_ops(rng, cfg, rng.randint(2, 7), premote=0.4, multi_single=True)))
     for _ in range(1200 if ctx.quick else 20000):
         cfg = G.rand_config(rng, maxblocks=5)
         for _ph, ps in cfg["phen"]:
             for p in ps:
                 if rng.random() < 0.7:
                     p["single"] = True
-        cases.append((cfg, G.rand_ops(rng, cfg, rng.randint(3, 10 if ctx.quick else 25), premote=0.4)))
+        cases.append((cfg, G.rand_ops(rng, cfg, rng.randint(3, 10 if ctx.quick else 25), premote=0.4, multi_single=True)))
     return cases
 
 
